@@ -132,16 +132,92 @@ func outputProjects(c *core.Ctx, n int) []*gen.Project {
 			p.Automan = []gen.AutoRow{gen.DefaultAutoRow(other)}
 			p.Till = nil
 		}
+		// automatic harvest with fixed sowing dates; the first crop is sown in a cold early April and its latest harvest
+		// date follows within a week: it has not emerged when that date comes and is a harvested crop all the same
+		notEmerged := false
+		if (i%6 == 0 || i%6 == 4) && len(p.Rotation) > 1 && !noAutoRow {
+			p.Cfg.AutoHarv, p.Cfg.AutoSow = 1, 1 // the table is read with automatic management on; rows without a window keep the rotation's sowing date
+			var rows []gen.AutoRow
+			seen := map[string]bool{}
+			for k, e := range p.Rotation {
+				if k == 0 || seen[e.Crop] {
+					continue
+				}
+				seen[e.Crop] = true
+				row := gen.DefaultAutoRow(e.Crop)
+				row.Sow1M, row.Sow1D, row.Sow2M, row.Sow2D = 0, 0, 0, 0
+				_, hm, hd := gen.YMD(e.Harv)
+				row.Har2M, row.Har2D = hm, hd
+				rows = append(rows, row)
+			}
+			if !gen.IsWinterCrop(p.Rotation[1].Crop) {
+				y, _, _ := gen.YMD(p.Rotation[1].Sow)
+				cr := p.Rotation[1].Crop
+				only := true
+				for k := 2; k < len(p.Rotation); k++ {
+					if p.Rotation[k].Crop == cr {
+						only = false
+					}
+				}
+				s0 := gen.DayNum(y, 4, 7+r.Intn(3))
+				if s0 <= p.Rotation[0].Harv+5 {
+					y++ // the run starts after that week: the April of the following year
+					s0 = gen.DayNum(y, 4, 7+r.Intn(3))
+				}
+				room := gen.DayNum(y, 4, 14) < p.Cfg.End-5 && (len(p.Rotation) < 3 || gen.DayNum(y, 4, 14) < p.Rotation[2].Sow-5)
+				if only && s0 > p.Rotation[0].Harv+5 && room {
+					p.Rotation[1].Sow, p.Rotation[1].Harv = s0, gen.DayNum(y, 4, 14)
+					for k := range rows {
+						if rows[k].Crop == cr {
+							rows[k].Har2M, rows[k].Har2D = 4, 14
+						}
+					}
+					notEmerged = true
+				}
+			}
+			p.Automan = rows
+			p.Till = nil
+		}
 		ey, em, ed := gen.YMD(p.Cfg.End)
 		ext := gen.DayNum(ey, p.Cfg.AnnualM, p.Cfg.AnnualD) > p.Cfg.End
 		_ = em
 		_ = ed
-		p.Arms = []string{fmt.Sprintf("outInt=%d format=%d dateFormat=%d annual=%02d.%02d. endYearLeap=%v annualAfterEnd=%v cols=%d/%d/%d autoSowUnknownCrops=%v", p.Cfg.OutInt, p.Cfg.ResultFormat, p.Cfg.DateFormat,
-			p.Cfg.AnnualD, p.Cfg.AnnualM, gen.IsLeap(ey), ext, len(cols), len(ycols), len(ccols), noAutoRow)}
+		p.Arms = []string{fmt.Sprintf("outInt=%d format=%d dateFormat=%d annual=%02d.%02d. endYearLeap=%v annualAfterEnd=%v cols=%d/%d/%d autoSowUnknownCrops=%v autoHarvestNotEmerged=%v", p.Cfg.OutInt, p.Cfg.ResultFormat, p.Cfg.DateFormat,
+			p.Cfg.AnnualD, p.Cfg.AnnualM, gen.IsLeap(ey), ext, len(cols), len(ycols), len(ccols), noAutoRow, notEmerged)}
 		if ext {
 			p.Arms = append(p.Arms, "annualAfterEnd")
 		}
 		ps = append(ps, p)
+	}
+	// one project built for the arm above whatever the seed draws: autumn start, a spring crop sown on 7-9 April of the
+	// next year whose latest harvest date is 14 April, a second crop after it
+	{
+		r := rngFor(c, 590)
+		o := gen.Opts{Years: 2, MinLayers: 4, MaxLayers: 10, DateFormats: []int{1 + 2*int(c.Seed%2)}, BeginMonth: 9, Crops: []string{"SW", "OA", "SM"}, ETMethods: []int{3}, StartYearMin: 1990, StartYearMax: 2020, ColdWinters: true}
+		p := gen.Random(r, fmt.Sprintf("o%d_ne", c.Seed), o)
+		y, _, _ := gen.YMD(p.Rotation[0].Harv)
+		first := gen.RotEntry{Crop: "SW", Sow: gen.DayNum(y+1, 4, 7+r.Intn(3)), Harv: gen.DayNum(y+1, 4, 14), RexPct: 50}
+		second := gen.RotEntry{Crop: "SM", Sow: gen.DayNum(y+1, 5, 10), Harv: gen.DayNum(y+1, 10, 5), RexPct: 50}
+		if second.Harv < p.Cfg.End-3 {
+			p.Rotation = append(p.Rotation[:1], first, second)
+			p.Cfg.AutoHarv, p.Cfg.AutoSow = 1, 1
+			r1, r2 := gen.DefaultAutoRow("SW"), gen.DefaultAutoRow("SM")
+			r1.Sow1M, r1.Sow1D, r1.Sow2M, r1.Sow2D, r1.Har2M, r1.Har2D = 0, 0, 0, 0, 4, 14
+			r2.Sow1M, r2.Sow1D, r2.Sow2M, r2.Sow2D, r2.Har2M, r2.Har2D = 0, 0, 0, 0, 10, 5
+			p.Automan = []gen.AutoRow{r1, r2}
+			p.Till, p.Fert, p.Irr = nil, nil, nil
+			p.Cfg.OutInt, p.Cfg.ResultFormat, p.Cfg.ResultExt = 1, 1, "csv"
+			p.Cfg.AnnualM, p.Cfg.AnnualD = 1, 2 // early in the year: the run is not extended past its end date (known finding H9)
+			// a cold first half of April: no emergence before the 14th
+			for k := range p.Weather.Days {
+				if _, m, d := gen.YMD(p.Weather.First + k); m == 4 && d <= 16 {
+					wd := &p.Weather.Days[k]
+					wd.Tmin, wd.Tmax, wd.Tavg = -20, 30, 5
+				}
+			}
+			p.Arms = []string{"autoHarvestNotEmerged=true (built)"}
+			ps = append(ps, p)
+		}
 	}
 	return ps
 }
@@ -161,7 +237,7 @@ func checkC05(c *core.Ctx) {
 	if len(ps) == 0 {
 		return
 	}
-	cases := execAll(c, worker, ps, "", outHeader, 10*60*1e9)
+	cases := execAll(c, worker, ps, "", autoHeader, 10*60*1e9)
 	res := validateCases(c, cases, "Trace_Run", "Trace_Run_C05.cfg", "")
 	c.Evals += len(cases)
 	records := 0
